@@ -94,7 +94,7 @@ def run(rep, tier):
                         "rule": "distinct (class, start, end, is_extensible)"})
     rep.extra["translator_crosscheck"] = xc
     # argument validation of the template constructor, for ALL integers and every other argument kind (VCs)
-    vcrun.run_functions(rep, [E + "__Integer.__init__"], tier)
+    vcrun.run_functions(rep, [E + c + ".__init__" for c in ("__Integer", "Integer", "PositiveInteger", "NegativeInteger", "UnsignedInteger")], tier)
     rep.trusted += ["R3, R4, R6, R7", "rx2smt translator (cross-checked against CPython each run)", "z3 regex theory and the "
                     "derivative-product procedure (must agree)", "specs/numerals.py (self-tested against brute force each run)"]
     rep.assumptions += ["digit runs glued to letters / underscore are not matched in the non-extensible form (documented "
